@@ -33,7 +33,7 @@ MANIFEST = {
                  "induction, list parsing lemmas) + model/implementation correspondence in coqc",
     "ref": "6 C16",
 }
-RULE = ("nine scenario kinds: text_content over NUL/BMP/astral/combining/boundary code points; json_content over random "
+RULE = ("ten scenario kinds: text_content over NUL/BMP/astral/combining/boundary code points; json_content over random "
         "JSON values; Content(ct, chunks) with explicit chunk lists (empty chunks, cuts inside sequences, valid and "
         "invalid UTF-8, both charsets in several spellings, no charset, non-text types); byte strings <= 8 (quick) / "
         "<= 12 (thorough) bytes under ALL 2^(n-1) cut patterns, each also with empty chunks in front/between/behind "
@@ -43,7 +43,8 @@ RULE = ("nine scenario kinds: text_content over NUL/BMP/astral/combining/boundar
         "both origins, both buffer_now values, source overwritten between creation and iteration, iterated twice; "
         "_copy_content/gather_details snapshots of such sources, and of details whose callback serves an in-memory "
         "list (a generator over it / the SAME list object every call / a fresh list / a tuple) gathered through "
-        "_copy_content, gather_details or TestCase.useFixture and then mutated (append, clear, replace); Content.__eq__ on pairs differing in type, subtype, "
+        "_copy_content, gather_details or TestCase.useFixture and then mutated (append, clear, replace); content_from_reader "
+        "over the same four callback kinds with both buffer_now values, list mutated after creation; Content.__eq__ on pairs differing in type, subtype, "
         "parameters (incl. order) or bytes (incl. same bytes chunked differently); content types from the wf_ct "
         "grammar and its boundary inside mime_dom. non-trivial = text with a non-ASCII code point / >= 2 chunks / "
         ">= 2 bytes under splits / non-empty source / parameters present; distinct = distinct JSON")
@@ -287,6 +288,8 @@ def drive(case):
             src.close()
     if k == "snaplist":
         return drive_snaplist(case)
+    if k == "readerlist":
+        return drive_readerlist(case)
     if k == "eq":
         ca = [bytes(x) for x in case["ca"]]
         cb = [bytes(x) for x in case["cb"]]
@@ -303,10 +306,8 @@ def drive(case):
     raise AssertionError(k)
 
 
-def drive_snaplist(case):
-    """A detail whose callback serves an in-memory list is gathered, then the list is mutated."""
-    import testtools
-    from testtools import content as C, testcase
+def _list_source(case):
+    """callback over an in-memory list, and the function that mutates that list"""
     buf = [bytes(c) for c in case["buf"]]
     src = case["src"]
     if src == "gen":                    # a generator over the mutable buffer
@@ -323,7 +324,6 @@ def drive_snaplist(case):
 
         def get():
             return tup
-    c = C.Content(C.UTF8_TEXT, get)
 
     def mutate():
         for op in case["ops"]:
@@ -333,6 +333,26 @@ def drive_snaplist(case):
                 buf.clear()
             else:
                 buf[op[1]] = bytes(op[2])
+    return get, mutate
+
+
+def drive_readerlist(case):
+    """content_from_reader over such a callback, both buffer_now values; the list is mutated after creation."""
+    from testtools import content as C
+    get, mutate = _list_source(case)
+    c = C.content_from_reader(get, None, case["buffer"])
+    mutate()
+    it1 = _chunks(lambda: list(c.iter_bytes()))
+    it2 = _chunks(lambda: list(c.iter_bytes()))
+    return {"it1": it1, "it2": it2}
+
+
+def drive_snaplist(case):
+    """A detail whose callback serves an in-memory list is gathered, then the list is mutated."""
+    import testtools
+    from testtools import content as C, testcase
+    get, mutate = _list_source(case)
+    c = C.Content(C.UTF8_TEXT, get)
 
     via = case["via"]
     if via == "copy":
@@ -426,7 +446,7 @@ def term(case, o):
         return q.pair("(ISnap %s)" % g_reader(case),
                       "(OSnap %s %s %s %s %s %s)" % (q.option(o["copied"]), q.boolean(o["same"]), g_bres(o["c1"]),
                                                      g_bres(o["c2"]), q.boolean(o["ra"]), g_bres(o["orig"])))
-    if k == "snaplist":
+    if k in ("snaplist", "readerlist"):
         ops = []
         for op in case["ops"]:
             if op[0] == "append":
@@ -437,6 +457,9 @@ def term(case, o):
                 ops.append("(LReplace %s %s)" % (q.nat(op[1]), g_bytes(op[2])))
         i = q.record([("sl_tuple", q.boolean(case["src"] == "tuple")), ("sl_buf", g_chunks(case["buf"])),
                       ("sl_ops", q.lst(ops))])
+        if k == "readerlist":
+            return q.pair("(IReaderList %s %s)" % (q.boolean(case["buffer"]), i),
+                          "(OReaderList %s %s)" % (g_bres(o["it1"]), g_bres(o["it2"])))
         return q.pair("(ISnapList %s)" % i,
                       "(OSnapList %s %s %s %s)" % (q.boolean(o["same"]), g_bres(o["c1"]), g_bres(o["c2"]), g_bres(o["orig"])))
     if k == "eq":
@@ -464,6 +487,8 @@ def perturb(case, o):
         o["ra"] = not o["ra"]
     elif k == "snaplist":
         o["same"] = not o["same"]
+    elif k == "readerlist":
+        o["it1"] = {"ok": o["it1"].get("ok", []) + [[33]]}
     elif k == "eq":
         o["eq"] = not o["eq"]
     elif k == "mime":       # compared by "did it come back": flip that
@@ -832,6 +857,8 @@ def generate(rng, tier):
     for src, buf, ops in fixed_sl:
         for via in ("copy", "gather", "fixture"):
             cases.append({"k": "snaplist", "src": src, "buf": buf, "ops": ops, "via": via})
+        for buffer in (False, True):
+            cases.append({"k": "readerlist", "src": src, "buf": buf, "ops": ops, "buffer": buffer})
     for _ in range(300 if quick else 4000):
         buf = [[rng.randint(0, 255) for _ in range(rng.choice([0, 1, 1, 2, 3]))] for _ in range(rng.choice([0, 1, 2, 2, 3, 4]))]
         n = len(buf)
@@ -846,8 +873,12 @@ def generate(rng, tier):
                 n = 0
             else:
                 ops.append(["replace", rng.randrange(n), [rng.randint(0, 255) for _ in range(rng.choice([0, 1, 2]))]])
-        cases.append({"k": "snaplist", "src": rng.choice(["gen", "same", "same", "fresh", "tuple"]), "buf": buf, "ops": ops,
-                      "via": rng.choice(["copy", "gather", "fixture"])})
+        if rng.random() < 0.3:
+            cases.append({"k": "readerlist", "src": rng.choice(["gen", "same", "same", "fresh", "tuple"]), "buf": buf,
+                          "ops": ops, "buffer": rng.random() < 0.6})
+        else:
+            cases.append({"k": "snaplist", "src": rng.choice(["gen", "same", "same", "fresh", "tuple"]), "buf": buf,
+                          "ops": ops, "via": rng.choice(["copy", "gather", "fixture"])})
     # ---- __eq__ ----
     chunkings = [[], [[]], [[1, 2, 3]], [[1], [2, 3]], [[1, 2], [], [3]], [[1, 2]], [[1, 2, 4]], [[1, 2, 3, 0]], [[0]], [[3, 2, 1]]]
     for ta, tb in itertools.product(range(len(EQ_CTS)), repeat=2):
@@ -906,7 +937,7 @@ def nontrivial(case):
         return len(case["data"]) >= 2
     if k in ("reader", "snap"):
         return len(case["data0"]) + len(case["data1"]) >= 1
-    if k == "snaplist":
+    if k in ("snaplist", "readerlist"):
         return len(case["buf"]) >= 1
     if k == "eq":
         return len(case["ca"]) + len(case["cb"]) >= 1
@@ -954,14 +985,14 @@ def shrink(case):
                 yield dict(c, seek=[case["seek"][0] - (1 if case["seek"][0] > 0 else -1), case["seek"][1]])
         if case["chunk"] > 1:
             yield dict(c, chunk=case["chunk"] - 1)
-    elif k == "snaplist":
+    elif k in ("snaplist", "readerlist"):
         for o in _shorter(case["ops"]):
             if all(op[0] != "replace" for op in o):
                 yield dict(c, ops=o)
         if all(op[0] != "replace" for op in case["ops"]):
             for b in _shorter(case["buf"]):
                 yield dict(c, buf=b)
-        if case["via"] != "copy":
+        if case.get("via", "copy") != "copy":
             yield dict(c, via="copy")
     elif k == "eq":
         for f in ("ca", "cb"):
@@ -1002,9 +1033,9 @@ def distribution(cases):
             r["len_multiple_of_chunk"] += len(c["data0"]) % c["chunk"] == 0
             if c["seek"] is not None and c["seek"][1] == 0 and c["seek"][0] > len(c["data1"]):
                 r["start_past_eof"] += 1
-        elif k == "snaplist":
-            sl = d.setdefault("snaplist", {})
-            for key in ("src:" + c["src"], "via:" + c["via"]):
+        elif k in ("snaplist", "readerlist"):
+            sl = d.setdefault(k, {})
+            for key in ("src:" + c["src"], "via:" + c["via"] if k == "snaplist" else "buffer_now:%s" % c["buffer"]):
                 sl[key] = sl.get(key, 0) + 1
         elif k == "mime":
             d["mime"]["wf_ct" if wf_ct(c["ct"]) else "F16"] += 1
